@@ -614,6 +614,8 @@ class PEval:
     def construct(self, n, env, depth):
         t = dtype(n) or ''
         args = [c for c in kids(n) if c.get('kind') and c.get('kind') != 'CXXDefaultArgExpr']
+        if t.replace('const ', '').startswith(('std::unique_ptr<', 'std::shared_ptr<')) and len(args) in (1, 2):
+            return self.ev(args[0], env, depth)          # the owner stands for the pointer it holds
         if t.replace('const ', '').startswith('std::pair<') and len(args) in (1, 2):
             from props.c04 import split_targs
             ts = split_targs(t)
@@ -926,6 +928,8 @@ class PEval:
                 obj = self.ev(objn, env, depth)
                 if isinstance(obj, Str):
                     return self.str_method(obj, name, args, env, depth, n)
+                if isinstance(obj, Heap) and name in ('get', 'release'):
+                    return obj
                 if isinstance(obj, VecL):
                     vals = [self.ev(a, env, depth) for a in args if a.get('kind') != 'CXXDefaultArgExpr']
                     if name in ('push_back', 'emplace_back') and len(vals) == 1:
